@@ -334,44 +334,85 @@ def dispatch_table(body, argname):
     raise AnchorMissing(f"no switch on discriminant of `{argname}` in {body.path}")
 
 
-def r3_codec_table(ck, F):
-    R = "C01-R3"
+def _codec_calls(F, body, sites, depth=0, seen=None):
+    """external codec-crate callees reached from the given call sites of `body`: the calls themselves, and those of the
+    crate's own functions they call (the per-codec helpers), transitively"""
+    seen = seen if seen is not None else set()
+    out = set()
+    local = []
+    for s, n, t_ in sites:
+        c = callee_of(t_)
+        if c is None:
+            continue
+        if _is_codec_crate(n):
+            out.add(n)
+        elif (c.get("resolved_local") if "resolved" in c else c.get("local")) and F.has_body(n) and n not in seen and depth < 4:
+            seen.add(n)
+            local.append(n)
+            hb = F.body(n)
+            out |= _codec_calls(F, hb, [(s2, callee_name(c2), t2) for s2, c2, t2 in hb.calls()], depth + 1, seen)[0]
+    return out, local
+
+
+def r3_codec_table(ck, F, R="C01-R3"):
+    """which codec each id selects, on both sides.  Stated on what an arm *reaches* (the external encoder / decoder
+    family), so that `snappy_compress(data)` and `snappy::compress(data, framed = true)` spliced into the arm are the
+    same table entry, and the inverted flag is the wrong one"""
     stems = anchors()["codec_stems"]
     enum = F.adts[A("compression_enum")]
     variants = [v["name"] for v in enum["variants"]]
-    ck.ob(R, "variants-known", sorted(variants) == sorted(stems.keys()), f"CompressionType variants {variants} all have a registered helper stem", nontrivial=False, config=F.config)
+    ck.ob(R, "variants-known", sorted(variants) == sorted(stems.keys()), f"CompressionType variants {variants} all have a registered codec family", nontrivial=False, config=F.config)
     comp = F.body(A("compress"))
     deco = F.body(A("decompress"))
     _, e1, tc = dispatch_table(comp, comp.arg_name(1))
     _, e2, td = dispatch_table(deco, deco.arg_name(1))
     for v in variants:
-        stem = stems.get(v, {}).get("stem")
+        fam = stems.get(v, {}).get("family", [])
+        excl = stems.get(v, {}).get("exclude", [])
+        ce, lc = _codec_calls(F, comp, tc.get(v, []))
+        de, ld = _codec_calls(F, deco, td.get(v, []))
         cc = [n for _, n, _ in tc.get(v, [])]
         dc = [n for _, n, _ in td.get(v, [])]
-        if stem == "":
-            ok_c = cc == []
-            # identity: returns Ok(Cow::Borrowed(data))
-            ok_d = len(dc) >= 1 and dc[0].endswith("Read::read_to_end")
-            ck.ob(R, f"compress-arm/{v}", ok_c, f"compress arm {v}: calls {cc} (identity expected)", comp, config=F.config)
-            ck.ob(R, f"decompress-arm/{v}", ok_d, f"decompress arm {v}: calls {dc} (read_to_end expected)", deco, config=F.config)
-        else:
-            ck.ob(R, f"compress-arm/{v}", cc == [f"compression::{stem}_compress"], f"compress arm {v} -> {cc} (expected compression::{stem}_compress)", comp, config=F.config)
-            ck.ob(R, f"decompress-arm/{v}", dc == [f"compression::{stem}_decompress"], f"decompress arm {v} -> {dc} (expected compression::{stem}_decompress)", deco, config=F.config)
+        if not fam:
+            # identity: returns Ok(Cow::Borrowed(data)) / copies the stream
+            ck.ob(R, f"compress-arm/{v}", cc == [], f"compress arm {v}: calls {cc} (identity expected)", comp, config=F.config)
+            ck.ob(R, f"decompress-arm/{v}", len(dc) >= 1 and dc[0].endswith("Read::read_to_end") and not de, f"decompress arm {v}: calls {dc} (read_to_end expected)", deco, config=F.config)
+            continue
+        if not ce and not de:
+            # feature compiled out: both sides must be the "unsupported" stubs (return Err)
+            stubs = [F.body(n) for n in lc + ld]
+            ok = bool(stubs) and all(_returns_err_only(b_) for b_ in stubs) and len(lc) >= 1 and len(ld) >= 1
+            ck.ob(R, f"compress-arm/{v}", ok, f"{v}: feature off, both arms end in Err stubs ({lc + ld})", comp, config=F.config, nontrivial=False)
+            ck.ob(R, f"decompress-arm/{v}", ok, f"{v}: feature off, both arms end in Err stubs ({lc + ld})", deco, config=F.config, nontrivial=False)
+            continue
+        crate, framing = fam[0], fam[1:]
+
+        def in_family(side):
+            return bool(side) and all(crate in n for n in side) and all(any(tok in n for n in side) for tok in framing) and not any(x in n for x in excl for n in side)
+        ck.ob(R, f"compress-arm/{v}", in_family(ce), f"compress arm {v} reaches {sorted(ce)} (expected the {fam} encoder only)", comp, config=F.config)
+        ck.ob(R, f"decompress-arm/{v}", in_family(de), f"decompress arm {v} reaches {sorted(de)} (expected the {fam} decoder only)", deco, config=F.config)
+        ck.ob(R, f"codec-pair/{v}", in_family(ce) and in_family(de), f"{v}: encoder side {sorted(ce)} / decoder side {sorted(de)} must both be of family {fam}", comp, config=F.config)
     # identity arm of compress returns the input borrowed
     for s, kind, payload in ok_return_sites(comp):
         if kind == "assign":
             e = comp._expr_of_def((s, kind, payload))
             if e.k == "agg" and e.x.get("variant") == "Ok":
                 inner = e.a[0]
-                ck.ob(R, "compress-identity", inner.k == "agg" and inner.x.get("variant") == "Borrowed" and is_arg(inner.a[0], comp.arg_name(3)),
-                      f"compress None arm returns {e.show()}", comp, s)
-    # helper args: every helper receives the function's own data / level / out
+                if inner.k == "agg" and inner.x.get("variant") == "Borrowed":
+                    ck.ob(R, "compress-identity", is_arg(inner.a[0], comp.arg_name(3)), f"compress None arm returns {e.show()}", comp, s)
+    # every per-codec helper called from an arm receives the function's own data / level / out
     for v, lst in tc.items():
         for s, n, t_ in lst:
+            c = callee_of(t_)
+            if c is None or not c.get("local") or not n.startswith("compression::"):
+                continue
             a = comp.arg_exprs(s)
-            ck.ob(R, f"compress-helper-args/{v}", is_arg(a[0], comp.arg_name(3)) and is_arg(a[1], comp.arg_name(2)), f"{n}({', '.join(x.show() for x in a)})", comp, s)
+            ck.ob(R, f"compress-helper-args/{v}", is_arg(a[0], comp.arg_name(3)) and (len(a) < 2 or is_arg(a[1], comp.arg_name(2)) or a[1].strip().k == "const"), f"{n}({', '.join(x.show() for x in a)})", comp, s)
     for v, lst in td.items():
         for s, n, t_ in lst[:1]:
+            c = callee_of(t_)
+            if not (n.endswith("Read::read_to_end") or (c is not None and c.get("local") and n.startswith("compression::"))):
+                continue
             a = deco.arg_exprs(s)
             # the helper receives the function's own reader (possibly behind an adapter built around it) and its own output buffer
             own_reader = a[0].mentions_arg(deco.arg_name(2)) and not any(x.k == "arg" and x.x.get("name") != deco.arg_name(2) for x in a[0].walk())
@@ -384,28 +425,6 @@ def r3_codec_table(ck, F):
     bad = [(x, tbl[x], discr.get(x)) for x in range(256) if tbl[x] != discr.get(x)]
     ck.ob(R, "from_u8-inverse-of-as-u8", not bad, "from_u8(d) = Some(variant with discriminant d) for the 6 ids and None for the other 250 byte values" + (f"; mismatches {bad[:6]}" if bad else ""), fu, ids=256)
     ck.exhaustive = True
-    # family agreement of each helper pair (only meaningful where the feature is compiled in)
-    for v in variants:
-        fam = stems[v].get("family", [])
-        stem = stems[v]["stem"]
-        if not stem:
-            continue
-        cb = F.body(f"compression::{stem}_compress")
-        db = F.body(f"compression::{stem}_decompress")
-        ce = sorted({callee_name(c) for _, c, _ in cb.calls() if c and not c["local"] and _is_codec_crate(callee_name(c))})
-        de = sorted({callee_name(c) for _, c, _ in db.calls() if c and not c["local"] and _is_codec_crate(callee_name(c))})
-        stub_c = not ce
-        stub_d = not de
-        if stub_c and stub_d:
-            # feature compiled out: both must be the "unsupported" stubs (return Err)
-            ck.ob(R, f"codec-pair/{v}", _returns_err_only(cb) and _returns_err_only(db), f"{stem}: feature off, both helpers are Err stubs", cb, config=F.config, nontrivial=False)
-            continue
-        crate, framing = fam[0], fam[1:]
-        excl = stems[v].get("exclude", [])
-        ok = (not stub_c) and (not stub_d) and all(crate in n for n in ce + de) \
-            and all(any(tok in n for n in side) for tok in framing for side in (ce, de)) \
-            and not any(x in n for x in excl for n in ce + de)
-        ck.ob(R, f"codec-pair/{v}", ok, f"{stem}: encoder side {ce} / decoder side {de} must both be of family {fam}", cb, config=F.config)
 
 
 def _is_codec_crate(n):
